@@ -62,7 +62,7 @@ FIXED_SNIPPETS = [
     "pass",
     "stack.append(ctx.ghost_variable)",
     "ctx.ghost_variable = pop(stack, 1, ctx=ctx)",
-    "parameters += wrapify(stack, pop(arg_stack, 1, ctx=ctx), ctx=ctx)",
+    "parameters += wrapify(arg_stack, pop(arg_stack, 1, ctx=ctx), ctx=ctx)",
     "ctx.context_values.pop()",
     "while 1:\n break\n continue",
     "def f():\n ret = [pop(stack, 1, ctx=ctx)]\n return ret\n return stack\n return res\n return pop(stack, 1, ctx=ctx)\n if len(stack) == 0: return",
